@@ -478,6 +478,26 @@ def judge_copy(case, lines):
                 return 'decoder %d, call %d: packet differs from what its own history yields (length %d vs %d)' % (o[1], ci - 1, g[0][13], e[0][13])
     return None
 
+def slow_and_busy_cases(rng, tag, thorough=False):
+    """(i) wall-clock time passes between two segments of a message (nothing in the property depends on time);
+    (ii) tens of thousands of frames of OTHER endpoints are decoded between two segments of a message"""
+    cases = []
+    for i, ms in enumerate([2300] + ([6000] if thorough else [])):
+        r = rng.fork('%sslow%d' % (tag, i))
+        e = (r.below(65536), r.below(256))
+        fr = chain_frames(r, e, r.choice([65534, r.below(65536)]), 3, trail=False)
+        lines = [feed_line(1, fr[0]), feed_line(1, fr[1]), 'SLEEP %d' % ms, feed_line(1, fr[2])]
+        cases.append(Case('%sslow%d' % (tag, i), lines, dict(frames=fr, eps=[e])))
+    for i, nf in enumerate([33000] + ([66000, 140000] if thorough else [])):
+        r = rng.fork('%sbusy%d' % (tag, i))
+        e = (r.below(65536), r.below(256))
+        e2 = (e[0] ^ 1, e[1])
+        fr = chain_frames(r, e, r.below(65536), 3, trail=False)
+        other = [cmp_frame(1, e2[0], 1, e2[1], j % 65536, [msg(j, 7, 0, 0x7E, bytes([j & 255]))]) for j in range(nf)]
+        frames = [fr[0], fr[1]] + other + [fr[2]]
+        cases.append(Case('%sbusy%d' % (tag, i), [feed_line(1, f) for f in frames], dict(frames=frames, eps=[e, e2])))
+    return cases
+
 def alias_partner(r, e):
     """another endpoint that collides with e under some plausible folding of the 24-bit (device, stream) key"""
     d, s = e
